@@ -68,8 +68,8 @@ def step_term(st, o):
     chain = st.get('chain', '')
     if chain == '@self':
         chain = o['self']
-    if k in ('gov', 'raw'):
-        kind = '(%s %s %s %s)' % ('KGov' if k == 'gov' else 'KRaw', cb(st.get('addr', '')),
+    if k in ('gov', 'gen', 'raw'):
+        kind = '(%s %s %s %s)' % ('KGov' if k in ('gov', 'gen') else 'KRaw', cb(st.get('addr', '')),
                                   coq_list([cb(c) for c in st.get('chains') or []]),
                                   coq_list([cb(c) for c in st.get('addrs') or []]))
     elif k == 'update':
@@ -381,7 +381,7 @@ def check(run):
                            explanation='the correspondence harness no longer builds against /repo'), no_input=True)
         return run.finish()
     nproc = 8
-    per = run.budget(36, 300)
+    per = run.budget(30, 300)
     steps = run.budget(40, 60)
     results, log = gen_run(run, nproc, per, steps)
     if results is not None:
@@ -410,6 +410,9 @@ def check(run):
              'type, lower-layer verdict, outcome, signer registered?, registry content)',
         distribution=dict(dist), model_mismatches=len(mm), monitor_failures=len(ff),
         samples=[results[0]['spec']['steps'][:6]] if results else []))
+    run.coverage['partial'] = ('PARTIAL: the Go-side authorization logic is proved (Props/C06.v) and tied by the differential run; the '
+                               'msg.sender checks inside the XIBC system contracts exist only as EVM byte code and are validated by an '
+                               'exhaustive non-view-method x caller-kind enumeration on the real byte code (arguments sampled), NOT proved')
     run.coverage['trusted_base'] += [
         'hand-written model Model/Auth.v tied to x/xibc/keeper/msg_server.go + client/keeper/relayer.go by this differential run',
         'cosmos-sdk BaseApp atomicity of a failed message (modelled by `deliver`; validated by the store/contract fingerprint)',
